@@ -646,7 +646,6 @@ def run_correspondence(chk, work: list[tuple[dict, list]], stage: str):
                 continue
             if ci != cm:
                 chk.disagree(f"{stage}: real schema object vs Model_C07.run_case", case, ci, cm)
-                continue
             if not rejected:
                 if ci["transitions"]:
                     chk.count(f"{stage}:with-transitions")
@@ -1112,7 +1111,7 @@ def run_cli_stage(chk, n: int):
         chk.count("cli:" + ("usage-error:" + impl[1] if isinstance(impl, tuple) else "ok"))
         if ci != cm:
             chk.disagree("FilterArguments.into() on a real schema vs Model_C07.run_cli", case, ci, cm)
-        elif not isinstance(impl, tuple):
+        if not isinstance(impl, tuple):
             check_property(chk, raw, mdoc, cli_as_calls(cli), impl, "cli")
     return {"cases": n}
 
@@ -1157,12 +1156,12 @@ def run(chk: core.Check):
         work.append((d, [[]] + [[c] for c in singles]))
     if quick:
         for d in docs[:6]:
-            work.append((d, [[rng.choice(singles), rng.choice(singles)] for _ in range(60)]))
-        for _ in range(30):
+            work.append((d, [[rng.choice(singles), rng.choice(singles)] for _ in range(100)]))
+        for _ in range(60):
             d = gen_doc(rng)
             work.append((d, [[gen_call(rng) for _ in range(rng.choice([1, 2, 2, 3]))] for _ in range(20)]))
     else:
-        for d in docs[:6]:
+        for d in docs[:5]:
             work.append((d, [[a, b] for a in singles for b in singles]))
         for _ in range(400):
             d = gen_doc(rng)
@@ -1176,12 +1175,12 @@ def run(chk: core.Check):
     # ---- pytest parametrization and lazy fixtures
     configs = [f["witness"] for f in chk.findings if f["witness"].get("kind") == "lazy"]
     configs = [{k: w[k] for k in ("paths", "fixture_calls", "lazy_calls")} for w in configs]
-    configs += gen_pytest_configs(rng, (12 if quick else 150) * (5 if chk.broken else 1))
+    configs += gen_pytest_configs(rng, (20 if quick else 150) * (5 if chk.broken else 1))
     run_pytest_stage(chk, configs)
     chk.stages["pytest_lazy_and_direct"] = {"configurations": len(configs)}
 
     # ---- oracle search: short real engine runs
-    chk.stages["engine_search"] = run_engine_stage(chk, (8 if quick else 120) * (10 if chk.broken else 1))
+    chk.stages["engine_search"] = run_engine_stage(chk, (12 if quick else 120) * (10 if chk.broken else 1))
 
     for f in chk.findings:
         chk.known(f, witness_fails(f["witness"]))
@@ -1218,4 +1217,31 @@ def replay(payload) -> int:
             m = core.coq_eval(IMPORTS, [expr])[0]
             print("  implementation:", canon_impl(impl))
             print("  model         :", canon_model(m))
+        elif isinstance(case, dict) and "engine" in case:
+            import schemathesis
+            from harness.loopback import Recorder
+
+            e = case["engine"]
+            raw = engine_doc()
+            rec = Recorder(engine_responder)
+            try:
+                if e.get("via_cli"):
+                    schema = schemathesis.openapi.from_dict(copy.deepcopy(raw))
+                    schema.filter_set = cli_filter_arguments(e["calls"]).into()
+                else:
+                    schema = build_schema(raw, e["calls"], Funcs())
+                evs, got = run_engine_on(schema, rec, e["phases"], e["seed"])
+            finally:
+                rec.close()
+            hit: dict = {}
+            for item in got:
+                c = classify_request(raw, item)
+                if c is not None:
+                    hit[f"{c[1].upper()} {c[0]}"] = hit.get(f"{c[1].upper()} {c[0]}", 0) + 1
+            mdoc = model_doc(raw)
+            want = sorted(f"{k.upper()} {p}" for p, es in mdoc for k, r, z in es if k in HTTP and oracle_selected(e["calls"], p, k, z))
+            print("  requests per operation:", hit)
+            print("  selected              :", want)
+        elif isinstance(case, dict) and "pytest" in case:
+            print("  tested:", pytest_session([case["pytest"]]))
     return 0
